@@ -1,5 +1,6 @@
 import GoSSE.Proofs.JoeMore
 import GoSSE.Proofs.GenEquivServer
+import GoSSE.Proofs.GenEquivJoeFanout
 /-!
 # C03 — Joe delivers each message exactly once, in order, to matching subscribers
 
@@ -109,5 +110,40 @@ theorem translated_getTopics (fuel : Nat) (l : List Bytes) :
   GenEquiv.getTopics_eq fuel l
 
 example : Gen.getTopics 0 [] = .ok [[]] ∧ Gen.getTopics 0 [[110], []] = .ok [[110], []] := ⟨rfl, rfl⟩
+
+/-! ### The fan-out of a published message, as translated from joe.go
+
+The `range` statement of the message case of `Joe.start` — `for done, sub := range j.subscribers { if topicsIntersect … {
+Send; Flush; on error: done <- err; removeSubscriber } }` — is translated as a definition of its own (`Gen.Joe_fanout`;
+`GenEquiv.fanout_eq`: the fold of `fanStep` over the order in which the map is ranged over, **any** order). The theorems
+below are about that source text, for every map of subscribers, every message, every behaviour of the subscribers'
+writers (`GoRT.MsgWriter`: any state machine) and every duplicate-free visiting order (a map's keys are distinct). -/
+
+/-- The translated fan-out is the fold of the one-key step; it does not panic, its loop ends. -/
+theorem translated_fanout_is_fold {σ : Type} (fuel : Nat) (j : Gen.Joe σ) (msg : Gen.publishedMessage) (order : List Nat)
+    (hf : order.length < fuel) (hfit : GenEquiv.TopicsFit fuel msg j) :
+    Gen.Joe_fanout fuel j msg order = .ok (order.foldl (GenEquiv.fanStep msg) j) :=
+  GenEquiv.fanout_eq fuel j msg order hf hfit
+
+/-- **Exactly once, and only to matching subscribers.** After the translated fan-out the entry of every visited subscriber
+is what *one* `outcome` makes of the entry it had before: left exactly as it was when its topics do not meet the message's
+(no call on its writer), its writer in the state after exactly one `Send` of the message followed by one `Flush` when both
+succeeded — never twice, however many topics match —, and gone when one of them failed. -/
+theorem fanout_exactly_once {σ : Type} (fuel : Nat) (j : Gen.Joe σ) (msg : Gen.publishedMessage) (order : List Nat)
+    (hf : order.length < fuel) (hfit : GenEquiv.TopicsFit fuel msg j) (hnd : order.Nodup)
+    (k : Nat) (sub : Gen.Subscription σ) (hk : k ∈ order) (h : GoRT.mapGet j.subscribers k = some sub) :
+    ∃ j', Gen.Joe_fanout fuel j msg order = .ok j' ∧
+      GoRT.mapGet j'.subscribers k =
+        match GenEquiv.outcome msg sub with
+        | .skipped => some sub
+        | .delivered sub' => some sub'
+        | .failed _ => none :=
+  ⟨_, GenEquiv.fanout_eq fuel j msg order hf hfit, GenEquiv.fold_at msg order j k sub hnd hk h⟩
+
+/-- … and a key the range does not produce keeps its entry: nobody else is written to. -/
+theorem fanout_touches_no_other {σ : Type} (fuel : Nat) (j : Gen.Joe σ) (msg : Gen.publishedMessage) (order : List Nat)
+    (hf : order.length < fuel) (hfit : GenEquiv.TopicsFit fuel msg j) (k : Nat) (hk : k ∉ order) :
+    ∃ j', Gen.Joe_fanout fuel j msg order = .ok j' ∧ GoRT.mapGet j'.subscribers k = GoRT.mapGet j.subscribers k :=
+  ⟨_, GenEquiv.fanout_eq fuel j msg order hf hfit, GenEquiv.fold_not_in msg order j k hk⟩
 
 end GoSSE.Props.C03
